@@ -59,6 +59,11 @@ func h05Schemas() [][]string {
 			`module i2 { namespace "urn:i2"; prefix i2; import missing { prefix b; } }`,
 			`module i3 { namespace "urn:i3"; prefix i3; container c; augment /zz:c { leaf x { type string; } } augment /i3:c/i3:nosuch { leaf y { type string; } } }`,
 			"module i4 { namespace \"urn:i4\"; prefix i4;\n\n\n\n\n\n\n\n leaf l9 { type no9; }\n leaf l10 { type no10; }\n   leaf l11 { type no11; } leaf l11b { type no11b; } }"},
+		// two revisions of one module that both define the identity a third module derives from
+		{`module idm { namespace "urn:idm"; prefix idm; revision 2020-01-01; identity ID; }`,
+			`module idm { namespace "urn:idm"; prefix idm; revision 2021-01-01; identity ID; identity EXTRA { base ID; } }`,
+			`module idu { namespace "urn:idu"; prefix idu; import idm { prefix m; } identity CHILD { base m:ID; } leaf l { type identityref { base m:ID; } } }`,
+			`module idz { namespace "urn:idz"; prefix idz; }`},
 		// two revisions of one module and importers, deviations with several deviate kinds
 		{`module lib { namespace "urn:lib"; prefix lib; revision 2019-01-01; typedef t { type int8; } leaf v { type t; default 1; } }`,
 			`module lib { namespace "urn:lib"; prefix lib; revision 2020-01-01; typedef t { type int16; } leaf v { type t; default 2; } leaf-list ll { type string; max-elements 4; } }`,
